@@ -3066,7 +3066,11 @@ func (h *ResponseHeader) parseHeaders(buf []byte) (int, error) {
 				if bytes.Equal(s.value, strClose) {
 					h.connectionClose = true
 				} else {
-					h.connectionClose = false
+					// Connection options are case-insensitive tokens of a
+					// comma-separated list, and the header may be repeated.
+					if hasHeaderValue(s.value, strClose) {
+						h.connectionClose = true
+					}
 					h.h = appendArgBytes(h.h, s.key, s.value, argsHasValue)
 				}
 				continue
